@@ -351,6 +351,13 @@ class AggregateBase(UnitsManaged, Saveable, OpenSystem):
         self.monomers.append(mono)
         self.mnames[mono.name] = len(self.monomers)-1
         self.nmono += 1
+        
+        # a coupling matrix set up earlier gets a row and a column for 
+        # the new molecule
+        if self.coupling_initiated:
+            rc = numpy.zeros((self.nmono,self.nmono), dtype=numpy.float64)
+            rc[:self.nmono-1,:self.nmono-1] = self.resonance_coupling
+            self.resonance_coupling = rc
         #
         # TESTED
 
@@ -372,8 +379,17 @@ class AggregateBase(UnitsManaged, Saveable, OpenSystem):
 
 
     def remove_Molecule(self, mono):
+        im = self.monomers.index(mono)
         self.monomers.remove(mono)
         self.nmono -= 1
+        
+        # the couplings and the names follow the remaining molecules
+        if self.coupling_initiated:
+            self.resonance_coupling = numpy.delete(
+                numpy.delete(self.resonance_coupling, im, 0), im, 1)
+        self.mnames = {}
+        for kk, mn in enumerate(self.monomers):
+            self.mnames[mn.name] = kk
 
 
     def get_nearest_Molecule(self,molecule):
